@@ -206,7 +206,7 @@ func RunCheck(id string, opt Options) int {
 		failed = append(failed, g)
 	}
 	// ledger: required names must exist and be discharged
-	if haveLedger && opt.Only == "" {
+	if haveLedger && opt.Only == "" && !opt.WriteLedger {
 		for _, n := range ledger.Required {
 			if !discharged[n] {
 				found := false
@@ -372,7 +372,7 @@ func RunCheck(id string, opt Options) int {
 		for _, g := range groups {
 			if g.Status == "unsat" && g.Kind != "cover" {
 				switch g.Kind {
-				case "post", "pre", "inv-init", "inv-keep", "decreases", "lemma", "frame":
+				case "post", "pre", "inv-init", "inv-keep", "decreases", "lemma":
 					req = append(req, g.Name)
 				}
 			}
